@@ -328,21 +328,49 @@ Fixpoint interleave {A} (a b : list A) : list A :=
 Definition utf8len (cp : Z) : Z := if cp <? 128 then 1 else if cp <? 2048 then 2 else if cp <? 65536 then 3 else 4.
 Definition utf8size (cps : list Z) : Z := fold_right (fun cp n => utf8len cp + n) 0 cps.
 
-Fixpoint slice (o : obj) : wobj :=
+(* the connection's vocabulary (the negotiated initial table, in index order): a byte string equal to one of its
+   words travels as a VOCAB token whose header is the word's INDEX *)
+Fixpoint vocab_index_from (i : Z) (voc : list (list Z)) (bs : list Z) : option Z :=
+  match voc with [] => None | w :: voc' => if list_eqb w bs then Some i else vocab_index_from (i + 1) voc' bs end.
+Definition vocab_index := vocab_index_from 0.
+
+Definition str_token (voc : list (list Z)) (size : Z) (bs : list Z) : wobj :=
+  match vocab_index voc bs with Some i => WStr true i bs | None => WStr false size bs end.
+
+Fixpoint slice (voc : list (list Z)) (o : obj) : wobj :=
   match o with
   | OInt z => let '(tb, size) := int_token z in WInt tb size z
   | OFloat b => WFloat b
-  | OBytes bs => WStr false (zlen bs) bs
-  | OText cps => WOpen OtUnicode [WStr false (utf8size cps) cps]
+  | OBytes bs => str_token voc (zlen bs) bs
+  | OText cps => WOpen OtUnicode [str_token voc (utf8size cps) cps]   (* UnicodeSlicer yields the UTF-8 bytes to sendToken *)
   | OBool b => WOpen OtBool [WInt tok_INT (if b then 1 else 0) (if b then 1 else 0)]
   | ONone => WOpen OtNone []
-  | OList l => WOpen OtList (map slice l)
-  | OTuple l => WOpen OtTuple (map slice l)
-  | OSet l => WOpen OtSet (map slice l)
-  | OFset l => WOpen OtFset (map slice l)
-  | ODict ks vs => WOpen OtDict (interleave (map slice ks) (map slice vs))
+  | OList l => WOpen OtList (map (slice voc) l)
+  | OTuple l => WOpen OtTuple (map (slice voc) l)
+  | OSet l => WOpen OtSet (map (slice voc) l)
+  | OFset l => WOpen OtFset (map (slice voc) l)
+  | ODict ks vs => WOpen OtDict (interleave (map (slice voc) ks) (map (slice voc) vs))
   | OPending k => WRef (OPending k)
   end.
+
+(* sharing: within one call, a list / tuple / set / dict object (Slicer.trackReferences) that was already sent
+   travels as OPEN reference the next time it occurs.  ser o w: w is a serialization of o in which any number of
+   such occurrences (the repeats) are references to the object itself *)
+Definition refable (o : obj) : bool :=
+  match o with OList _ | OTuple _ | OSet _ | ODict _ _ => true | _ => false end.
+
+Definition atom (o : obj) : bool :=
+  match o with OInt _ | OFloat _ | OBytes _ | OText _ | OBool _ | ONone => true | _ => false end.
+
+Inductive ser (voc : list (list Z)) : obj -> wobj -> Prop :=
+| ser_atom o : atom o = true -> ser voc o (slice voc o)
+| ser_list l ws : Forall2 (ser voc) l ws -> ser voc (OList l) (WOpen OtList ws)
+| ser_tuple l ws : Forall2 (ser voc) l ws -> ser voc (OTuple l) (WOpen OtTuple ws)
+| ser_set l ws : Forall2 (ser voc) l ws -> ser voc (OSet l) (WOpen OtSet ws)
+| ser_fset l ws : Forall2 (ser voc) l ws -> ser voc (OFset l) (WOpen OtFset ws)
+| ser_dict ks vs wks wvs : Forall2 (ser voc) ks wks -> Forall2 (ser voc) vs wvs ->
+                           ser voc (ODict ks vs) (WOpen OtDict (interleave wks wvs))
+| ser_ref o : refable o = true -> ser voc o (WRef o).
 
 (* ---- method schemas *)
 Record argspec := { a_name : Z; a_ctr : ctr; a_opt : bool }.     (* a_opt: declared Optional(...) (unwrapped in a_ctr) *)
@@ -445,9 +473,10 @@ Definition recv_answer (oc : option ctr) (w : wobj) : av :=
   end.
 
 (* the sender: callRemote checks (outbound) and then slices *)
-Definition send_call (ms : mschema) (args : list obj) (kwargs : list (Z * obj)) : option (list wobj * list (Z * wobj)) :=
+Definition send_call (voc : list (list Z)) (ms : mschema) (args : list obj) (kwargs : list (Z * obj))
+  : option (list wobj * list (Z * wobj)) :=
   match checkAllArgs ms args kwargs with
-  | Ok _ => Some (map slice args, map (fun nv => (fst nv, slice (snd nv))) kwargs)
+  | Ok _ => Some (map (slice voc) args, map (fun nv => (fst nv, slice voc (snd nv))) kwargs)
   | Exc _ => None
   end.
 
